@@ -42,9 +42,9 @@ TEXT = {
          "Sphere's J is the indicator of the ball; the source's mu_0 sites are regenerated each run (one known finding: setter literal)",
          "mask = geometric inside predicate proved for Sphere only; other classes by stratified oracle; exact real arithmetic",
          "Lean 4 theorems (algebra over R with arbitrary mu0) on hand-written wrapper models + generated constant-site table + kernel correspondence in IEEE double + residual oracle"),
- "C12": ("proof (partial): exact homogeneity in a common length factor, including the scale-freeness of every internal branch decision, for Dipole (-3), Sphere (0, inside/outside switch) "
-         "and the straight segment (-1, foot-point case split); linearity in excitation for Sphere; other classes by rescaling oracle over 1e-9..1e9",
-         "exact real arithmetic; Cuboid/Cylinder/Segment/Circle/Triangle kernels not ported; TriangularMesh small-scale failure is a recorded finding",
+ "C12": ("proof (partial): exact homogeneity in a common length factor, including the scale-freeness of every internal branch decision, for Dipole (-3), Sphere (0, inside/outside switch), "
+         "the straight segment (-1, foot-point case split) and the Cuboid (kernel factors, octant reflection, all wrapper masks); linearity in excitation for Sphere; other classes by rescaling oracle over 1e-9..1e9",
+         "exact real arithmetic; Cylinder/Segment/Circle/Triangle kernels not ported; TriangularMesh small-scale failure is a recorded finding",
          "Lean 4 theorems over R on kernel ports tied by IEEE-double correspondence + rescaling oracle"),
  "C01": ("proof (partial): Dipole kernel = point-dipole formula; the Biot-Savart integral of a straight filament in closed form by FTC; Sphere solution (with C13/C14); wrappers add exactly the interior term (C02); "
          "frame change (C03). Other closed forms vs their defining integrals: not shown by theorem, checked by numerical quadrature of the integrals for all 10 classes",
